@@ -60,6 +60,8 @@ def run(C, R):
         E = C.engine(cfg)
         CG = C.cg(cfg)
         R.configs.append(cfg)
+        from common import wrapper_discipline
+        R.floor('C06.W wrapper-paths[%s]' % cfg, wrapper_discipline(C, R, cfg, ['sync::semaphore::SemaphoreState'], 'C06.W'), 2)
         wk = find_wakeup_fn(F, E)
         counts = {'R1': 0, 'R2': 0, 'R3': 0, 'R4': 0}
         for m in entry_methods(F, CG, STATE):
